@@ -398,6 +398,35 @@ func (w *World) orderDependentEffects(ml *mapLoop) []string {
 				}
 				if rhs != nil && w.mentions(rhs, derivedList...) && !underLoopCond(x) {
 					eff = append(eff, fmt.Sprintf("assigns a loop-dependent value to %s unconditionally: the last/first visited entry wins (%s)", o.Name(), w.pos(x)))
+				} else if rhs != nil && w.mentions(rhs, derivedList...) {
+					// a running minimum/maximum whose "nothing yet" state is a value an entry can
+					// have (`best == ""`, `best == 0`): once such an entry has been taken, the
+					// next one replaces it whatever it is — which entries follow is map order
+					for p := w.parents[ast.Node(x)]; p != nil && p != ast.Node(ml.stmt); p = w.parents[p] {
+						ifs, ok := p.(*ast.IfStmt)
+						if !ok {
+							continue
+						}
+						sentinel := false
+						ast.Inspect(ifs.Cond, func(m ast.Node) bool {
+							be, ok := m.(*ast.BinaryExpr)
+							if !ok || (be.Op != token.EQL && be.Op != token.NEQ) {
+								return true
+							}
+							for _, pr := range [][2]ast.Expr{{be.X, be.Y}, {be.Y, be.X}} {
+								if identObj(w, pr[0]) == o {
+									if tv, ok := w.Info.Types[pr[1]]; ok && tv.Value != nil {
+										sentinel = true
+									}
+								}
+							}
+							return true
+						})
+						if sentinel {
+							eff = append(eff, fmt.Sprintf("keeps a running best in %s and recognises \"nothing found yet\" by comparing it with a constant an entry can equal (%s): after such an entry the next visited one wins", o.Name(), w.pos(ifs)))
+							break
+						}
+					}
 				}
 			}
 		case *ast.ReturnStmt:
